@@ -44,6 +44,18 @@ def default_selection(is_agg: bool) -> exp.Alias:
     return alias(exp.Max(this=exp.Literal.number(1)) if is_agg else "1", "_").assert_is(exp.Alias)
 
 
+def _consumes_entire_rows(expression: exp.Expr) -> bool:
+    expression = expression.unnest()
+    if isinstance(expression, exp.SetOperation):
+        return (
+            bool(expression.args.get("distinct"))
+            or isinstance(expression, (exp.Intersect, exp.Except))
+            or _consumes_entire_rows(expression.left)
+            or _consumes_entire_rows(expression.right)
+        )
+    return bool(expression.args.get("distinct"))
+
+
 def pushdown_projections(
     expression: E,
     schema: dict[str, object] | Schema | None = None,
@@ -109,6 +121,13 @@ def pushdown_projections(
             if not by_name and len(le.selects) != len(re.selects):
                 scope_sql = scope_expression.sql(dialect=dialect)
                 raise OptimizeError(f"Invalid set operation due to column mismatch: {scope_sql}.")
+
+            if SELECT_ALL not in parent_selections and (
+                _consumes_entire_rows(le) or _consumes_entire_rows(re)
+            ):
+                # A branch that keeps all of its columns (DISTINCT, INTERSECT, EXCEPT) pins the column list
+                # of every other branch, otherwise the branches end up with different numbers of columns
+                parent_selections = {SELECT_ALL}
 
             # Columns in ORDER BY need to be kept too
             order = scope_expression.args.get("order")
